@@ -37,6 +37,27 @@ func checkNoServerTimeouts(c *report.Ctx) {
 			}
 		}
 	}
+	// the front end: an invocation is answered when it is over, which may be the function timeout plus the reset
+	// allowance after the request was read; a write (or whole-request read) deadline cuts that answer off
+	var fset []string
+	fpos2 := token.NoPos
+	fn2 := 0
+	for _, f := range repoFuncs(c) {
+		if !strings.HasPrefix(an.FuncName(f), "M/cmd/aws-lambda-rie.") {
+			continue
+		}
+		for _, st := range an.Stores(f, "net/http.Server", "") {
+			fr, _ := an.AsField(st.Addr)
+			fn2++
+			if oneOf(fr.Field, "ReadTimeout", "WriteTimeout") {
+				fset = append(fset, an.FuncName(f)+": "+fr.Field)
+				if fpos2 == token.NoPos {
+					fpos2 = an.InstrPos(st)
+				}
+			}
+		}
+	}
+	c.Check("R-CONST", "M/cmd/aws-lambda-rie.Server/no-answer-deadline", "the invoke endpoint's server sets no write or whole-request deadline: the outcome of a timed-out invocation is written after the function timeout plus the reset allowance", len(fset) == 0 && fn2 >= 1, fpos2, fn2, "http.Server fields set: %d; deadlines set: %v", fn2, fset)
 	c.Check("R-CONST", "L/rapi.Server/no-connection-deadlines", "the Runtime/Extensions API server sets no read/write timeouts: a party parked in /next for any length of time still receives its event", len(set) == 0 && n >= 1, pos, n, "http.Server fields set: %d; timeouts set: %v", n, set)
 }
 
